@@ -296,8 +296,10 @@ impl<B: AsRef<[usize]> + BitLength, C: AsRef<[BlockCounters]>> Select9<Rank9<B, 
                     }
 
                     // move to the next word and bound check
+                    // (the end of the last inventory is rounded up to a
+                    // multiple of four words, possibly beyond the backend)
                     word_idx += 1;
-                    if word_idx == end_word_idx {
+                    if word_idx == end_word_idx || word_idx == num_words {
                         break;
                     }
 
